@@ -12,6 +12,7 @@ import (
 	"io"
 	"net"
 	"os"
+	"runtime"
 	"strconv"
 	"sync"
 	"sync/atomic"
@@ -19,6 +20,7 @@ import (
 
 	"Havoc/pkg/handlers"
 	"Havoc/pkg/packager"
+	"Havoc/pkg/verifhook"
 
 	"verifh/demon"
 	"verifh/lib"
@@ -52,13 +54,72 @@ type env struct {
 	r       *rig.Rig
 	h       *handlers.HTTP
 	nextID  atomic.Uint32
+	portSeq  atomic.Uint32
+	portBase uint32
+	regMu    sync.Mutex
 	taskSeq atomic.Uint32
 	bound   time.Duration // primary progress bound
 	curMu   sync.Mutex
 	cur     map[string]json.RawMessage
 }
 
+// queueFence keeps accesses to Agent.JobQueue apart in time. The queue is not locked
+// (property C04 owns that defect, DESIGN §4 #7) and with a dozen relay goroutines adding
+// write tasks while the agent checks in, lost and repeated tasks would drown what this
+// property is about. The two existing hook points sit immediately before the append in
+// AddJobToQueue and before the write-back in GetQueuedJobs; the fence lets adders pass one
+// at a time some tens of microseconds apart and keeps them out for a while once a write-back is
+// imminent, which in turn waits until adders already past the hook are done. A thread
+// descheduled exactly between hook and statement can still slip through: the scenarios
+// compare the hook's add counter with the number of tasks delivered and attribute damage
+// to the queue when they differ.
+var (
+	fenceOnce sync.Once
+	fenceT0   = time.Now()
+	lastAdd   atomic.Int64
+	lastGet   atomic.Int64
+)
+
+func nanos() int64 { return int64(time.Since(fenceT0)) }
+
+func queueFence() {
+	fenceOnce.Do(func() {
+		if os.Getenv("C15_NO_QUEUE_FENCE") != "" {
+			return
+		}
+		lastGet.Store(-1 << 40)
+		lastAdd.Store(-1 << 40)
+		verifhook.Set("queue.add", func() {
+			for {
+				now := nanos()
+				if now-lastGet.Load() < 300_000 {
+					runtime.Gosched()
+					continue
+				}
+				t := lastAdd.Load()
+				if now-t < 25_000 {
+					continue
+				}
+				if lastAdd.CompareAndSwap(t, now) {
+					// a write-back announced in the meantime waits for us (see below)
+					return
+				}
+			}
+		})
+		verifhook.Set("queue.get.writeback", func() {
+			lastGet.Store(nanos())
+			for {
+				now := nanos()
+				if now-lastGet.Load() > 50_000 && now-lastAdd.Load() > 50_000 {
+					return
+				}
+			}
+		})
+	})
+}
+
 func newEnv(c *lib.Ctx) (*env, error) {
+	queueFence()
 	r, err := rig.New(rig.Options{})
 	if err != nil {
 		return nil, err
@@ -67,17 +128,42 @@ func newEnv(c *lib.Ctx) (*env, error) {
 	if err != nil {
 		return nil, err
 	}
-	e := &env{c: c, r: r, h: h, bound: 2 * time.Second, cur: map[string]json.RawMessage{}}
+	e := &env{c: c, r: r, h: h, bound: 2500 * time.Millisecond, cur: map[string]json.RawMessage{}}
 	if s := os.Getenv("C15_BOUND_MS"); s != "" {
 		if ms, err := strconv.Atoi(s); err == nil && ms > 0 {
 			e.bound = time.Duration(ms) * time.Millisecond
 		}
 	}
 	e.nextID.Store(0x15000000 + uint32(c.Shard)<<16)
+	// disjoint windows per shard, so that no worker of a run ever sees another worker's
+	// (or its own earlier) proxy behind a port it allocates
+	e.portBase = uint32(c.Shard%16) * 1375
 	return e, nil
 }
 
+// allocPort hands out proxy ports from below the kernel's ephemeral range (32768..60999
+// here), walking forward from a start that depends on the worker, so that neither other
+// workers' FreePort users nor an earlier, killed proxy of this worker can ever be behind a
+// port a client of this worker dials. The port is bind-tested first.
+func (e *env) allocPort() int {
+	for i := 0; i < 4000; i++ {
+		n := e.portSeq.Add(1)
+		p := 10000 + int(e.portBase+n%1375)
+		l, err := net.Listen("tcp", "0.0.0.0:"+strconv.Itoa(p))
+		if err != nil {
+			continue
+		}
+		l.Close()
+		return p
+	}
+	return 0
+}
+
+// newAgent registers a reference Demon. Registrations are serialised: the session table is
+// not a subject of this property and concurrent appends to it lose entries.
 func (e *env) newAgent() (*refAgent, error) {
+	e.regMu.Lock()
+	defer e.regMu.Unlock()
 	return newRefAgent(e.r, e.h.GinEngine, e.nextID.Add(1))
 }
 
@@ -169,7 +255,7 @@ func (e *env) newLane(name string) (*lane, error) {
 // addProxy starts a proxy through the operator command and waits until it accepts.
 func (ln *lane) addProxy() (int, error) {
 	for try := 0; try < 5; try++ {
-		port := rig.FreePort()
+		port := ln.e.allocPort()
 		if port == 0 {
 			continue
 		}
@@ -391,3 +477,5 @@ func (r *clientReader) waitDone(bound time.Duration) bool {
 		return false
 	}
 }
+
+func hookHits() map[string]int64 { return verifhook.AllHits() }
